@@ -54,6 +54,8 @@ def register(reg):
         raises=[("ValueError", "n <= 0 or s < min(1, n - 1) or s > n - 1")],
         returns="int", ensures=[("is_mixed_optimum", "result == MIXOPT(n, s)")], frame=[],
         recursion_measure="n",
+        hints={"return": [("not_below_optimum", "implies(2 <= s and s <= n - 2, m >= MIXOPT(n, s))"),
+                          ("not_above_optimum", "implies(2 <= s and s <= n - 2, m <= MIXOPT(n, s))")]},
         loops=[LoopSpec("for i in range(2, n)", [
             ("index", "2 <= it_i and it_i <= n"),
             ("domain", "2 <= s and s <= n - 2"),
